@@ -385,6 +385,8 @@ def menu(proc, seed, tier="quick", ops=None, include_unsafe=False):
     # ---- calls, windows, writes
     for p, s in calls:
         add("inline", N(p))
+        for e in getattr(seed, "eqv", ()):
+            add("call_eqv", N(p), NS(e))
     for p, s in wins:
         add("inline_window", N(p))
     for p, s in assigns:
